@@ -544,11 +544,28 @@ impl<'a> Cx<'a> {
                 let f = if self.good { gfield.clone() } else { self.unknown_field(b) };
                 match k {
                     Kind::AccessDirect => {
-                        let mut sub = self.c.n("sub", 4);
+                        let mut sub = self.c.n("sub", 5);
                         if sub == 2 && self.pure_mode() {
                             sub = 0;
                         }
                         match sub {
+                            4 => {
+                                // the blob is an element handed out by the runtime library: its type comes from the
+                                // library's signature (`list.get: [*ITEM], int -> Maybe(*ITEM)`)
+                                // (`list.last` and `list.find` are impure by their library signatures)
+                                let getter = if self.pure_mode() { 0 } else { self.c.n("getter", 3) };
+                                form = format!("element-from-library/{}", ["list.get", "list.last", "list.find"][getter]);
+                                prelude.push("Zzi :: blob { zzv: int, zzw: str }\n".to_string());
+                                let nf = if self.good { ["zzv", "zzw"][self.c.n("nf", 2)] } else { "zznope" };
+                                setup.push("zzl :: [Zzi { zzv: 1, zzw: \"a\" }, Zzi { zzv: 2, zzw: \"b\" }]".to_string());
+                                let got = match getter {
+                                    0 => "list.get(zzl, 0)",
+                                    1 => "list.last(zzl)",
+                                    _ => "list.find(zzl, pu zzq -> true end)",
+                                };
+                                let dflt = if nf == "zzw" { "\"\"" } else { "0" };
+                                Core::Expr(format!("case {} do\n    Just zze -> zze.{} end\n    else {} end\nend", got, nf, dflt))
+                            }
                             0 => {
                                 form = "annotated-constant".into();
                                 setup.push(format!("zzv: {} : {}", self.bann(b), inst));
